@@ -91,9 +91,9 @@ def _state(st, skind, qobj):
     return ([polcase.policy_key(p) for p in pols], canon(vars(qobj)))
 
 
-def fresh_answer(case, inq_abs, cache):
+def fresh_answer(case, inq_abs, cache, skind='memory'):
     objs, _ = polcase.build_case(case)
-    st = MemoryStorage()
+    st = MemoryStorage() if skind == 'memory' else stores.make_base(skind)
     for o in objs:
         st.add(o)
     return Guard(st, polcase.make_checker(case['k'], cache)).is_allowed(proto.build_inquiry(inq_abs))
@@ -223,6 +223,15 @@ def run(ctx):
             out.evaluations += 1
             desc = {'checker': k, 'cache': cap, 'storage': skind, 'policies': [repr(p) for p in case['policies']],
                     'history': [h[0] for h in hist], 'answers': [h[1] for h in hist]}
+            if a is not f0 and skind != 'memory':
+                # which candidates a backend's search returns is C07's subject (a recorded finding lives there: a search
+                # that the server refuses); what C16 prescribes is that the history does not matter - so the judge is a
+                # fresh guard over a fresh storage of the same kind, asked only this inquiry
+                try:
+                    f0 = fresh_answer(case, qa, None, skind)
+                    out.count('judged-on-fresh-storage-of-the-same-kind')
+                except Exception:
+                    pass
             if a is not f0:
                 f = Failure('oracle', desc, a, None, 'a fresh guard over a fresh copy, asked only this inquiry, says %s' % f0,
                             'Vakt.C16.history_independent')
@@ -270,12 +279,13 @@ def replay(ctx, rp):
     c = rp['case']
     case = {'k': c['checker'], 'policies': [eval(p) for p in c['policies']], 'inquiry': eval(c['history'][-1])}
     objs, _ = polcase.build_case(case)
-    st = MemoryStorage()
+    skind = c.get('storage', 'memory')
+    st = MemoryStorage() if skind == 'memory' else stores.make_base(skind)
     for o in objs:
         st.add(o)
     guard = Guard(st, polcase.make_checker(case['k'], (c['cache'],)))
     a = None
     for h in c['history']:
         a = guard.is_allowed(proto.build_inquiry(eval(h)))
-    f0 = fresh_answer(case, eval(c['history'][-1]), None)
+    f0 = fresh_answer(case, eval(c['history'][-1]), None, skind)
     return {'answer_after_history': a, 'fresh_guard': f0, 'still_fails': a is not f0}
